@@ -95,7 +95,7 @@ def run(ctx):
     sc = C.scratch()
     fails = []
     # (a) synthetic alignments through the writers
-    alns = [alngen.rand_alignment(rng, not ctx.quick) for _ in range(50 if ctx.quick else 500)]
+    alns = [alngen.rand_alignment(rng, not ctx.quick) for _ in range(50 if ctx.quick else 500)] + [alngen.long_row_alignment(rng) for _ in range(6 if ctx.quick else 60)]
     # names must be white-space free tokens for block formats; alngen guarantees the C06 charset
     lines, meta = [], []
     for k, (kind, aln) in enumerate(alns):
